@@ -26,12 +26,12 @@ CONFIG = {
               'floors': {'evaluations': 8000, 'distinct_nontrivial': 1200, 'perm.tetrahedral': 200, 'perm.axis': 100,
                          'table.tetrahedron-keys': 24, 'table.alkene-keys': 8, 'rdkit.smiles-compared': 3000,
                          'rdkit.wedge-compared': 300, 'isomers.sets': 40, 'edits.label-dropped': 30, 'single-label.compared': 1500,
-                         'single-label.verdict-not-stereogenic': 300, 'single-label.spiro-pairs': 300}},
+                         'single-label.verdict-not-stereogenic': 300, 'single-label.spiro-pairs': 300, 'explicit-h-wedges.compared': 150}},
     'thorough': {'shards': 16, 'budget_s': 1800, 'n_corpus': 4200, 'k_spell': 24,
                  'floors': {'evaluations': 100000, 'distinct_nontrivial': 8000, 'perm.tetrahedral': 200, 'perm.axis': 100,
                             'table.tetrahedron-keys': 24, 'table.alkene-keys': 8, 'rdkit.smiles-compared': 50000,
                             'rdkit.wedge-compared': 3000, 'isomers.sets': 300, 'edits.label-dropped': 30, 'single-label.compared': 8000,
-                            'single-label.verdict-not-stereogenic': 1500, 'single-label.spiro-pairs': 300}},
+                            'single-label.verdict-not-stereogenic': 1500, 'single-label.spiro-pairs': 300, 'explicit-h-wedges.compared': 600}},
 }
 
 
@@ -279,6 +279,69 @@ def wedges(ctx, m, src, rng):
         ctx.note('foreign wedge block failed on %s: %r' % (src, e))
 
 
+def explicit_h_wedges(ctx, src, rng):
+    """blocks in which the stereocentre's hydrogen is drawn as an atom and the wedge sits on a bond to a heavy neighbour (every
+    neighbour in turn, up and down): RDKit decides what each drawing denotes, the library must read the same arrangement"""
+    from rdkit import Chem
+    from rdkit.Chem import AllChem
+    rd = Chem.MolFromSmiles(src)
+    if rd is None or rd.GetNumAtoms() > 40:
+        return
+    cents = [a.GetIdx() for a in rd.GetAtoms() if a.GetChiralTag() != Chem.ChiralType.CHI_UNSPECIFIED and a.GetSymbol() == 'C'
+             and a.GetTotalNumHs() == 1 and a.GetDegree() == 3]
+    if len(cents) != 1 or any(a.GetChiralTag() != Chem.ChiralType.CHI_UNSPECIFIED for a in rd.GetAtoms() if a.GetIdx() != cents[0]) \
+            or any(b.GetStereo() != Chem.BondStereo.STEREONONE for b in rd.GetBonds()):
+        return      # one centre, so that a single wedge carries the whole configuration
+    c = cents[0]
+    try:
+        rk = Chem.Mol(rd)
+        Chem.Kekulize(rk, clearAromaticFlags=True)
+        rh = Chem.AddHs(rk, onlyOnAtoms=[c])
+        AllChem.Compute2DCoords(rh)
+        plain = Chem.MolToMolBlock(rh, includeStereo=False)
+    except Exception:
+        return
+    lines = plain.split('\n')
+    na, nb = int(lines[3][:3]), int(lines[3][3:6])
+    bond_lines = range(4 + na, 4 + na + nb)
+    for i in bond_lines:                     # RDKit writes its own wedge even without stereo: remove every mark first
+        lines[i] = lines[i][:9] + '  0' + lines[i][12:]
+    for heavy in [n.GetIdx() for n in rh.GetAtomWithIdx(c).GetNeighbors() if n.GetAtomicNum() != 1]:
+        for mark in (1, 6):
+            out = list(lines)
+            done = False
+            for i in bond_lines:
+                a1, a2 = int(out[i][:3]) - 1, int(out[i][3:6]) - 1
+                if {a1, a2} == {c, heavy}:
+                    out[i] = '%3d%3d%s%3d' % (c + 1, heavy + 1, out[i][6:9], mark) + out[i][12:]
+                    done = True
+            if not done:
+                continue
+            blk = '\n'.join(out)
+            rr = Chem.MolFromMolBlock(blk)
+            if rr is None:
+                continue
+            want = Chem.MolToSmiles(Chem.RemoveHs(rr))
+            if '@' not in want:
+                ctx.count('explicit-h-wedges.rdkit-reads-no-configuration')
+                continue
+            ctx.evaluations += 1
+            ctx.count('explicit-h-wedges.compared')
+            try:
+                g = mdl_mol(blk)
+                g.implicify_hydrogens()
+                g.thiele()
+                got = rd_canon(str(g))
+            except Exception as e:
+                ctx.violation('wedge-reader-raises/%s' % type(e).__name__, '%s with explicit H: %r' % (src, e), {'smiles': src})
+                return
+            if got != want:
+                ctx.violation('foreign-wedges-read-as-other-arrangement/explicit-hydrogen',
+                              '%s, hydrogen drawn, %s wedge on the bond to atom %d: read as %s = %s, RDKit reads %s' % (
+                                  src, 'up' if mark == 1 else 'down', heavy + 1, g, got, want), {'smiles': src})
+                return
+
+
 def isomer_sets(ctx, m, src, rng):
     items = T.stereo_items(m)
     if not 1 <= len(items) <= 6:
@@ -346,6 +409,9 @@ def label_dropping(ctx):
             ctx.violation('stereoisomers-compare-equal', '%s == %s' % (a, b), {'smiles': a})
 
 
+ONE_CENTRE = ['C[C@H](F)Cl', 'C[C@@H](O)CC', 'N[C@@H](C)C(=O)O', 'O[C@H](c1ccccc1)C(F)(F)F', 'C[C@H]1CCCCO1', 'C[C@@H]1CCCC(=O)N1', 'CC[C@H](C)N', 'C[C@H](Br)c1ccccn1',
+              'OC[C@H](O)C=O', 'C[C@H](S)C#N', 'C[C@@H](Cl)C(C)(C)C', 'F[C@H](Cl)Br', 'C[C@H]1CC1(C)C', 'O=C1CC[C@H](C)O1', 'C[C@@H](N)c1ccco1', 'CC(C)[C@H](O)C=C',
+              'N[C@@H](CO)C(N)=O', 'C[C@H]1CCCN1C', 'C[C@H](O)C(=O)OC', 'CC[C@@H](C)CO', 'Cl[C@H](C)C=O', 'C[C@H]1COC(=O)O1', 'C[C@@H]1CCC(=O)C1', 'CS[C@H](C)N']
 SPIRO_A = ['C1CC1', 'C1CCC1', 'C1CCCC1', 'C1CCCCC1', 'C1CCCCCC1', 'C1COC1', 'C1CCOCC1', 'C1CCNCC1', 'C1CSC1']     # symmetric about atom 1
 SPIRO_B = ['C1CCCO1', 'C1CCNC1', 'C1COCC1', 'C1CCCCO1', 'C1CCC(=O)N1', 'C1CC(C)CC1', 'C1CCOC1', 'C1CCCC(F)C1', 'C1C=CCC1', 'C1CCC1', 'C1CCCCC1']
 
@@ -491,8 +557,12 @@ def worker(ctx):
         spellings(ctx, m, s, cfg, rng)
         if rng.random() < .5:
             wedges(ctx, m, s, rng)
+        explicit_h_wedges(ctx, s, rng)
         if rng.random() < .35:
             isomer_sets(ctx, m, s, rng)
+    for kk, s in enumerate(ONE_CENTRE):
+        if ctx.mine(kk):
+            explicit_h_wedges(ctx, s, rng)
     # one label at a time on unlabelled structures: corpus, curated, spiro pairs (symmetric ring x any ring), ring assemblies
     k = 0
     for a in SPIRO_A + SPIRO_B:
